@@ -12,5 +12,6 @@ let () =
   | "md" -> D_docs.run_md ()
   | "gen" -> D_gen.run ()
   | "upd" -> D_upd.run ()
+  | "yaml" -> D_yaml.run ()
   | "validate" -> D_exec.run_validate ()
   | x -> prerr_endline ("unknown " ^ x); exit 2
